@@ -398,3 +398,5 @@ def run(F, rep, tier):
         rep.floor("C01-R3", "unary kernels for %s" % nfc, len(seen), 2)
 
     rep.analysed = {"operator_families": len(families), "dispatch_tables": len(disp), "function_structs": len(S), "kernels_normalised": len([k for k in kernels.values() if not isinstance(k, Unrecognised)])}
+    from rules.k2_targets import run_k2
+    run_k2(F, rep, "C01", "C01-R7")
